@@ -45,7 +45,7 @@ FUNC_NAME = {'ipv4': 'is_valid_ipv4', 'ipv4s': 'is_valid_ipv4(strict=True)', 'ip
              'ip': 'is_valid_ip', 'cidr': 'is_valid_cidr', 'cidr6': 'is_valid_ipv6_cidr',
              'mac': 'is_valid_mac', 'port': 'is_valid_port', 'icmp_type': 'is_valid_icmp_type',
              'icmp_code': 'is_valid_icmp_code'}
-REQUIRED_CLAUSES = (['under-warnings-as-errors', 'concurrent-calls-answer-as-alone', 'documented-keyword-call', 'subclass-of-int-or-str-argument', 'answers-rather-than-raises', 'stdlib-agreement', 'scope-length-limit',
+REQUIRED_CLAUSES = (['equal-valued-arguments-in-any-order', 'valid-calls-after-rejected-calls-answer-as-before', 'under-unlimited-int-digits', 'under-warnings-as-errors', 'concurrent-calls-answer-as-alone', 'documented-keyword-call', 'subclass-of-int-or-str-argument', 'answers-rather-than-raises', 'stdlib-agreement', 'scope-length-limit',
                      'range-end-int', 'range-end-str', 'oracle-self-check'] +
                     ['must-accept:' + FUNC_NAME[v] for v in VALIDATORS] +
                     ['must-reject:' + FUNC_NAME[v] for v in VALIDATORS])
